@@ -1,13 +1,14 @@
 import sys, importlib, os
-sys.path.insert(0, '/verif')
+ROOT = os.path.dirname(os.path.dirname(os.path.abspath(__file__)))
+sys.path.insert(0, ROOT)
 from vx import gen, run
 def main():
     modname = sys.argv[1]
     canary = '--canary' in sys.argv
     mod = importlib.import_module('contracts.' + modname)
     g = gen.generate(mod.UNIT, canary=canary)
-    os.makedirs('/verif/.work', exist_ok=True)
-    out = '/verif/.work/%s%s.rs' % (modname, '_canary' if canary else '')
+    os.makedirs(ROOT + '/.work', exist_ok=True)
+    out = ROOT + '/.work/%s%s.rs' % (modname, '_canary' if canary else '')
     open(out, 'w').write(g.text())
     print('wrote', out, len(g.lines), 'lines;', len(g.rewrites), 'rewrites; labels', len(g.labels))
     r = run.run_verus(out)
